@@ -641,3 +641,75 @@ type halfPlane struct {
 
 func (h halfPlane) Evaluate(p v2.Vec) float64 { return h.nx*p.X + h.ny*p.Y - h.d }
 func (h halfPlane) BoundingBox() sdf.Box2     { return h.bb }
+
+// ---------------------------------------------------------------------------
+// all resolutions: a thin capsule across a 100-unit box through the quadtree renderer at up to 40 000
+// cells (lattice indices beyond 2^16; the uniform renderer would need 10^9 samples there)
+
+type fineCapsule struct {
+	a, b v2.Vec
+	r    float64
+	bb   sdf.Box2
+}
+
+func (c fineCapsule) Evaluate(p v2.Vec) float64 {
+	ab, ap := c.b.Sub(c.a), p.Sub(c.a)
+	t := math.Max(0, math.Min(1, ap.Dot(ab)/ab.Length2()))
+	return p.Sub(c.a.Add(ab.MulScalar(t))).Length() - c.r
+}
+func (c fineCapsule) BoundingBox() sdf.Box2 { return c.bb }
+
+func TestFineResolution(t *testing.T) {
+	rec := ev.Get()
+	rapid.Check(t, func(t *rapid.T) {
+		var cells int
+		switch rapid.IntRange(0, 2).Draw(t, "class") {
+		case 0:
+			cells = rapid.IntRange(300, 6000).Draw(t, "cells")
+		case 1:
+			cells = rapid.IntRange(6000, 32000).Draw(t, "cells-fine")
+		default:
+			cells = rapid.IntRange(32000, ev.Pick(40000, 70000)).Draw(t, "cells-beyond-2^15")
+		}
+		L := 100.0
+		h := L / float64(cells)
+		a := g.F(-math.Pi, math.Pi).Draw(t, "angle")
+		if rapid.IntRange(0, 2).Draw(t, "axis-aligned") == 0 {
+			a = float64(rapid.IntRange(0, 3).Draw(t, "axis")) * math.Pi / 2
+		}
+		dir := v2.Vec{X: math.Cos(a), Y: math.Sin(a)}
+		r := h * g.F(1.2, 3).Draw(t, "radius-in-cells")
+		c := v2.Vec{X: g.F(-2, 2).Draw(t, "cx"), Y: g.F(-2, 2).Draw(t, "cy")}
+		half := 0.45*L/math.Max(math.Abs(dir.X), math.Abs(dir.Y)) - r - 3
+		s := fineCapsule{a: c.Sub(dir.MulScalar(half)), b: c.Add(dir.MulScalar(half)), r: r, bb: sdf.Box2{Min: v2.Vec{X: -L / 2, Y: -L / 2}, Max: v2.Vec{X: L / 2, Y: L / 2}}}
+		ls := collect(s, render.NewMarchingSquaresQuadtree(cells))
+		desc := fmt.Sprintf("capsule %v..%v radius %v in a %v box", s.a, s.b, r, L)
+		worst, length := 0.0, 0.0
+		zero := 0
+		for _, l := range ls {
+			for _, v := range l {
+				worst = math.Max(worst, math.Abs(s.Evaluate(v)))
+			}
+			if l[0] == l[1] {
+				zero++
+			}
+			length += l[1].Sub(l[0]).Length()
+		}
+		rep := mesh.Analyze2(ls, 1e-4*h)
+		if len(ls) == 0 || rep.OddPoints > 0 {
+			rec.Violation(t, "MarchingSquares:quadtree:fine:odd-degree", "%d cells, %s: %d segments, %d end points of odd degree", cells, desc, len(ls), rep.OddPoints)
+		}
+		if zero > 0 {
+			rec.Violation(t, "MarchingSquares:quadtree:fine:zero-length-segment", "%d cells, %s: %d zero-length segments", cells, desc, zero)
+		}
+		if worst > h*(1+1e-9) {
+			rec.Violation(t, "MarchingSquares:quadtree:fine:endpoint-off-boundary", "%d cells (h=%v), %s: an end point is %v from the boundary", cells, h, desc, worst)
+		}
+		want := 4*half + 2*math.Pi*r
+		if math.Abs(length-want) > 0.05*want {
+			rec.Violation(t, "MarchingSquares:quadtree:fine:length", "%d cells, %s: contour length %v, perimeter %v", cells, desc, length, want)
+		}
+		rec.Case(len(ls) > 0, ev.Key("fine", cells, desc), "fine:quadtree", fmt.Sprintf("fine:cells>32768=%v", cells > 32768))
+		rec.Sample("fine:quadtree", map[string]any{"cells": cells, "scene": desc, "segments": len(ls), "length": length, "perimeter": want})
+	})
+}
